@@ -12,8 +12,8 @@ from vlib.runner import Violation
 NAMES = ["a", "b", "c", "f", "g"]
 FILEOPS = ["CWD", "CDUP", "MKD", "MKD", "RMD", "DELE", "RNFR", "RNTO", "MLST"]
 XFER = ["LIST", "MLSD", "STOR", "STOR", "APPE", "RETR", "RETR"]
-MISC = ["PWD", "TYPE", "PBSZ", "PROT", "SYST", "ABOR", "FOO", "", "noop", "REST", "REST", "QUIT"]
-REST_ARGS = ["0", "1", "3", "7", "100", "5000", "3abc", "", "-1", "١", "²", "+2", "1.5", "0x10", " 4", "07"]
+MISC = ["PWD", "TYPE", "PBSZ", "PROT", "SYST", "ABOR", "FOO", "", "noop", "REST", "REST", "QUIT", "M\u212aD"]  # U+212A lower-cases to 'k'
+REST_ARGS = ["0", "1", "3", "7", "100", "5000", "3abc", "", "-1", "١", "²", "+2", "1.5", "0x10", " 4", "07", "9" * 5000]
 PAYLOADS = [b"", b"x", bytes(range(5)), b"\r\n\x00\xff\r\n" * 2 + b"z", bytes((i * 7) % 251 for i in range(40)),
             bytes(range(256))]
 
